@@ -24,7 +24,8 @@ EXTENDS Integers, Sequences, FiniteSets, TLC, Json, SequencesExt
 CONSTANTS Alphabet,        \* set of one-character strings
           K1, P1,          \* family 1: lists of <= P1 pairs with keys of length 1..K1
           K2, P2,          \* family 2: lists of <= P2 pairs with keys of length 1..K2
-          MaxInput         \* inputs of length 0..MaxInput
+          MaxInput,        \* inputs of length 0..MaxInput
+          VS               \* value sets explored by the state machine (the table always has both)
 
 StrsUpTo(lo, n) == UNION {[1..m -> Alphabet] : m \in lo..n}
 Lists(k, p) == UNION {[1..n -> StrsUpTo(1, k)] : n \in 1..p}
@@ -80,7 +81,7 @@ TrieLookup(ks, s, i) == Walk(ks, s, i, 0, [pair |-> 0, keylen |-> 0])
 VARIABLES ks, vs, s, i, out
 vars == <<ks, vs, s, i, out>>
 
-Init == ks \in KeyLists /\ vs \in {1, 2} /\ s \in Inputs /\ i = 1 /\ out = <<>>
+Init == ks \in KeyLists /\ vs \in VS /\ s \in Inputs /\ i = 1 /\ out = <<>>
 
 (* one iteration of the loop in Replace *)
 Step ==
